@@ -43,6 +43,18 @@ CLAIMS["C04"] = dict(CLAIMS["C01"], text="The abstract joins in the Verus templa
                      "impls are the generic impl blocks themselves). Representation independence is built in: the model is stated on abs().",
                      design="DESIGN.md §4, §5 C04")
 
+CLAIMS["C09"] = {
+    "text": "Each law checker of lattices::algebra is run by Kani on the carrier {0..N-1} with the operations given by fully symbolic "
+            "operation tables (every binary/unary operation on the carrier at once) and must return Ok exactly when the law, written from its "
+            "mathematical statement, holds on all tuples: complete for each N in {1,2} (quick) and N = 3 (thorough); loops are bounded by "
+            "N^3 with unwinding assertions on. Composite checkers (semigroup ... field) return Ok exactly when the component checkers of the "
+            "structure's definition do (N <= 2). This is the property's own quantifier decided symbolically instead of sampled.",
+    "note": "Trusted: Kani+CBMC; carriers larger than 3 are not covered; the composite harnesses are checked against the component checkers' "
+            "results (modular), N <= 2; semiring_application.rs (u32/f64 applications) is not yet under contract.",
+    "technique": "contract-based verification: Kani harness contracts (Ok <=> law) over symbolic operation tables on the real crate",
+    "design": "DESIGN.md §5 C09, §6.1",
+}
+
 NOT_APPLICABLE = {
     "C08": "GHT nodes own std HashMap / hashbrown HashTable at every level; variadic type recursion is outside Verus' subset and CBMC does not get through hashbrown probing (spiked): no contract on these functions can be discharged here.",
     "C18": "Quantifies over programs the compiler accepts; partition_graph works on DfirGraph (slotmaps of syn AST nodes): no contract over that state is within Verus' subset and Kani cannot build a symbolic DfirGraph.",
